@@ -412,8 +412,8 @@ func (e *Evaluator) evalArrayLiteral(arr *parser.ArrayLiteral) (value, error) {
 
 func (e *Evaluator) evalMapLiteral(m *parser.MapLiteral) (value, error) {
 	pairs := map[string]value{}
-	for key, node := range m.Pairs {
-		val, err := e.eval(node)
+	for _, key := range m.Order {
+		val, err := e.eval(m.Pairs[key])
 		if err != nil {
 			return nil, err
 		}
